@@ -245,7 +245,7 @@ package keeper
 // ---- genesis import (C16): into a fresh store, from an export of a reachable state --------------------------
 
 //@ func (Keeper) GetNextBatchInfoIndex
-//@   requires forall i uint64 :: BatchInfos[(bridgeId, i)] != None ==> i < 18446744073709551615                                              // A-CTR
+//@   assumes forall i uint64 :: BatchInfos[(bridgeId, i)] != None ==> i < 18446744073709551615                                               // A-CTR: a bridge never records 2^64-1 batch infos
 //@   ensures err == nil                                                                                                                     // A-STORE
 //@   ensures forall i uint64 :: BatchInfos[(bridgeId, i)] != None ==> i < batchInfoIndex                                                     // C16: above_every_recorded_index
 //@   ensures batchInfoIndex == 0 || BatchInfos[(bridgeId, batchInfoIndex - 1)] != None                                                      // C16: one_past_the_last_recorded_index
